@@ -4,3 +4,4 @@ pub mod c04;
 pub mod c05;
 pub mod c07;
 pub mod c06;
+pub mod c08;
